@@ -40,9 +40,9 @@ def directed_designs(ctx):
   for cls, src, op in sv_gen.directed_const_designs():
     c, _ = sc.load_source(ctx, src, cls)
     out.append(sv.Design(cls, c, source=src, kind='directed', features=['const:' + op, 'tag:const-subexpr']))
-  for cls, src, tag in sv_gen.directed_other_designs():
+  for cls, src, tag, *lim in sv_gen.directed_other_designs():
     c, _ = sc.load_source(ctx, src, cls)
-    out.append(sv.Design(cls, c, source=src, kind='directed', features=['tag:' + tag]))
+    out.append(sv.Design(cls, c, source=src, kind='directed', features=['tag:' + tag], limits=lim[0] if lim else ()))
   return out
 
 def prepare(ctx, d, backend, ncycles, seed, sim_cache):
@@ -224,9 +224,14 @@ def report_static(ctx, r, pid, backend):
     ctx.extra.setdefault('unmodelled', []).append(f'{d.name}: {r.detail[:120]}')
     if d.kind in ('gen', 'directed'):
       ctx.violation(f'{pid}:generator-outside-subset:{d.name}', f'generated design {d.name} uses a construct svparse does not model: {r.detail[:200]}', base, found_input=False)
-  elif r.status == 'syntax' and getattr(r.exc, 'kind', '') == 'illegal-literal':
-    key = f'{pid}:{d.name}:illegal-literal' if d.kind in ('directed', 'case') else f'{pid}:syntax:illegal-literal'
+  elif r.status == 'syntax' and getattr(r.exc, 'kind', '') in ('illegal-literal', 'literal-as-assignment-target'):
+    kd = r.exc.kind
+    key = f'{pid}:{d.name}:{kd}' if d.kind in ('directed', 'case') else f'{pid}:syntax:{kd}'
     ctx.violation(key, f'{d.name}: emitted text is not Verilog: {r.detail[:200]}', dict(base, parser_message=r.detail, emitted_lines=emitted_lines(r.text, "'d", 10)))
+  elif r.status == 'syntax' and re.search(r'\+\s*\]', '\n'.join(l for l in r.text.splitlines() if not l.strip().startswith('//'))):
+    hit = [l.strip()[:200] for l in r.text.splitlines() if re.search(r'\+\s*\]', l) and not l.strip().startswith('//')][:3]
+    key = f'{pid}:{d.name}:sext-of-variable-part-select' if d.kind in ('directed', 'case') else f'{pid}:syntax:sext-of-variable-part-select'
+    ctx.violation(key, f'{d.name}: emitted text is not SystemVerilog: sign extension of a variable part select x[e : e+N] is emitted with a truncated select `x[e +]`: {hit[:1]}', dict(base, parser_message=r.detail, emitted_lines=hit))
   elif r.status == 'syntax':
     ctx.violation(f'{pid}:syntax:{d.name}', f'emitted text of {d.name} does not fit the grammar of the emitted subset: {r.detail[:300]}', dict(base, parser_message=r.detail, emitted_text=r.text[-3000:]))
   elif r.status == 'portmap':
